@@ -14,6 +14,7 @@ EXPLANATION = (
     "Equality of states reached through different seek paths — the behavioural content — is NOT decided."
     ' Round 2: guard strength (confirmed rejection relation, no new bypass condition) on the per-tick verification gates.'
     " The in-place advance of seek_to is reached only through an order test of the target against the cursor's tick (a rewind never advances in place)."
+    " Round 4: (R4) in the replay finaliser the only tests between entry and a return without writing a replay-derived field are presence tests of a parameter (a test of the entry's content would leave what the starting state held); (R3) every non-delegating `checkpoint*_before` lookup selects by tick < requested (relation read off the search idiom; unknown idioms are reported as undecided), and restore asks for the checkpoint before target+1."
 )
 ASSUMPTIONS = ["per-tick verification clauses are those of C05.R3", "state equality across paths is out of static reach"]
 FLOOR = 29
